@@ -1657,7 +1657,8 @@ class Fxp():
     def like(self, x):
         if isinstance(x, self.__class__):
             new_raw_val = utils.scale_raw(self.val, x.n_frac - self.n_frac)
-            return  x.copy().set_val(new_raw_val, raw=True)
+            # a new object like `x` (own config, status and callbacks), not a shallow copy sharing them with `x`
+            return self.__class__(like=x).set_val(new_raw_val, raw=True)
         else:
             raise ValueError('`x` should be a Fxp object!')
 
